@@ -148,6 +148,25 @@ pub struct Stdio {
     saved_out: i32,
 }
 
+static SAVED_OUT: std::sync::atomic::AtomicI32 = std::sync::atomic::AtomicI32::new(-1);
+
+/// writes to the original stdout from any thread (used by the watchdog before exiting)
+pub fn emergency_say(s: &str) {
+    let fd = SAVED_OUT.load(std::sync::atomic::Ordering::SeqCst);
+    let fd = if fd >= 0 { fd } else { 1 };
+    unsafe {
+        let b = s.as_bytes();
+        let mut off = 0;
+        while off < b.len() {
+            let n = libc::write(fd, b[off..].as_ptr() as *const _, b.len() - off);
+            if n <= 0 {
+                break;
+            }
+            off += n as usize;
+        }
+    }
+}
+
 impl Stdio {
     /// redirects fd 1 and 2 to /dev/null; the harness reports through `say`
     pub fn silence() -> Self {
@@ -159,6 +178,7 @@ impl Stdio {
                 libc::dup2(null, 2);
                 libc::close(null);
             }
+            SAVED_OUT.store(saved_out, std::sync::atomic::Ordering::SeqCst);
             Stdio { saved_out }
         }
     }
